@@ -88,10 +88,15 @@ StyleJson(g) == [fg |-> g.fg, bg |-> g.bg, ul |-> g.ul, eff |-> SelectSeq(EffOrd
 SetToSeqJ(S) == LET RECURSIVE T(_)
                     T(R) == IF R = {} THEN <<>> ELSE LET x == CHOOSE y \in R : TRUE IN <<StyleJson(x)>> \o T(R \ {x})
                 IN T(S)
+\* two runs: text of the first run is a blank, a newline or a letter
+Inter(t) == <<27, 91>> \o GT[sel[1]] \o <<109>> \o t \o <<27, 91>> \o GT[sel[2]] \o <<109, 88>>
+CharsJson(bytes) == LET cs == CharsAllowed(bytes) IN [k \in 1..Len(cs) |-> [c |-> cs[k].c, allowed |-> SetToSeqJ(cs[k].S)]]
 Emit == sel # <<>> =>
    LET a == AllowedAfter(Combined)
        b == AllowedAfter(Separate)
    IN /\ a.S = b.S /\ ~a.wild /\ ~b.wild                      \* combined = separate, on the specification
-      /\ PrintT(ToJson([i |-> Combined, allowed |-> SetToSeqJ(a.S), text |-> <<88>>]))
-      /\ (Len(sel) > 1 => PrintT(ToJson([i |-> Separate, allowed |-> SetToSeqJ(b.S), text |-> <<88>>])))
+      /\ PrintT(ToJson([i |-> Combined, chars |-> CharsJson(Combined)]))
+      /\ (Len(sel) > 1 => PrintT(ToJson([i |-> Separate, chars |-> CharsJson(Separate)])))
+      /\ (Len(sel) = 2 => \A t \in {<<32>>, <<32, 32, 9>>, <<10>>, <<97>>} :
+                             PrintT(ToJson([i |-> Inter(t), chars |-> CharsJson(Inter(t))])))
 =============================================================================
